@@ -16,7 +16,7 @@ MC_Configs == CASE Which = "C01" -> IF Thorough THEN AllFlagCfgs({<<127>>, <<96,
                 [] Which = "C02" -> AllFlagCfgs(IF Thorough THEN {<<127>>, <<96, 127>>, <<63, 105, 127>>} ELSE {<<96, 127>>})
                 [] Which = "C19" -> {Cfg(TRUE, TRUE, TRUE, TRUE, <<96, 127>>), Cfg(TRUE, FALSE, FALSE, FALSE, <<96, 127>>)}
                 [] OTHER -> IF Thorough THEN FewFlagCfgs({<<96, 127>>})
-                            ELSE {Cfg(TRUE, TRUE, TRUE, TRUE, <<96, 127>>), Cfg(TRUE, FALSE, FALSE, FALSE, <<96, 127>>)}
+                            ELSE {Cfg(TRUE, FALSE, FALSE, FALSE, <<96, 127>>)}
 
 (* 2/8 gives bars of 24 ticks, which a 24-tick note starting on the bar line fills exactly *)
 SigPlans == {<<>>, <<<<0, 3, 4>>>>, <<<<0, 2, 4>>, <<48, 6, 8>>>>, <<<<96, 3, 4>>>>, <<<<0, 2, 8>>>>}
